@@ -275,8 +275,8 @@ Lemma chain_level :
     /\ tm a' = tm a.
 Proof.
   intros HL n. induction n as [|n IH]; intros tid lvl a cmd Hl.
-  - cbn [chain sp_instrs pre]. rewrite sp_plain_correct. cbn [plain]. unfold sp_post.
-    rewrite post_nolimit. cbn [N.of_nat]. rewrite N.add_0_r.
+  - cbn [chain sp_instrs pre]. rewrite sp_plain_correct. cbn [plain]. unfold tick.
+    cbn [N.of_nat]. rewrite N.add_0_r.
     replace (lvl <=? nest c) with true by (symmetry; apply N.leb_le; exact Hl).
     eexists. split; reflexivity.
   - cbn [chain sp_instrs pre]. rewrite sp_plain_correct.
@@ -293,8 +293,8 @@ Proof.
       replace (lvl + 1 + N.of_nat n) with (lvl + N.of_nat (S n)) by lia.
       destruct (lvl + N.of_nat (S n) <=? nest c).
       * unfold sp_post. rewrite post_nolimit.
-        cbn [sp_instrs pre]. rewrite sp_plain_correct. cbn [plain]. unfold sp_post. rewrite post_nolimit.
-        eexists. split; [reflexivity|]. cbn [fst tick tm count set_lg]. congruence.
+        cbn [sp_instrs pre]. rewrite sp_plain_correct. cbn [plain]. unfold tick.
+        eexists. split; [reflexivity|]. cbn [fst tm count set_lg]. congruence.
       * eexists. split; [reflexivity|]. rewrite tm_log_err. congruence.
 Qed.
 
@@ -359,12 +359,12 @@ Proof.
     cbn [sp_instrs]; rewrite sp_plain_correct;
     match goal with |- context [plain c ?n a cmd D] => destruct (plain_off n a cmd D Hp) as [a1 [[cmd1 D1] H1]] end;
     rewrite H1; unfold sp_post.
-  - destruct (post_off (count a1) cmd1 D1 Hp) as [a2 [cd H2]]. rewrite H2.
+  - destruct (tick c (count a1)) as [a2 x].
     intro H. injection H as _ <-. discriminate.
   - rewrite sp_plain_correct.
     destruct (plain_off n a1 cmd1 D1 Hp) as [a2 [[cmd2 D2] H2]]. rewrite H2. apply IHk.
   - destruct (post_off (print m (count a1)) cmd1 D1 Hp) as [a2 [[cmd2 D2] H2]]. rewrite H2. apply IHk.
-  - destruct (post_off (add_timing tid d k (count a1)) cmd1 D1 Hp) as [a2 [cd H2]]. rewrite H2.
+  - destruct (tick c (add_timing tid d k (count a1))) as [a2 x].
     intro H. injection H as _ <-. discriminate.
   - destruct (tick c (log_warn c (count a1))) as [a2 cmd2]. apply IHk.
   - intro H. injection H as _ <-. discriminate.
